@@ -832,3 +832,40 @@ def rule_isinstance_on_class(ctx: Ctx, rels: List[str]) -> None:
                              f"instance of `{norm(k)}`, so this test is False for every operation class and the branch it guards is never taken "
                              f"(issubclass is meant)", func=qualname(fn), construct=f"{qualname(fn)}: isinstance({subj.id}, {norm(k)[:40]}) on a class")
     ctx.ok_abstract("type.isinstance-on-class", f"{scanned} functions scanned, {hits} isinstance tests on a name bound to a class")
+
+
+# --------------------------------------------------------------------------- zip.truncation
+
+
+def rule_zip_truncation(ctx: Ctx, rels: List[str]) -> None:
+    """zip.truncation: an equality verdict computed by walking two sequences in lock step with `zip(A, B)` — `return False` inside the
+    loop, `return True` (or falling through to one) after it — says "equal" when one sequence is a proper prefix of the other, because
+    zip stops at the shorter one.  Accepted: `zip(..., strict=True)`, itertools.zip_longest, or an explicit comparison of the two
+    lengths (of the same two sequences) in the function."""
+    rels = _widen(ctx, rels)
+    repo = ctx.repo
+    scanned = hits = 0
+    for rel in rels:
+        m = repo.module(rel)
+        for fn in [f for f in ast.walk(m.tree) if isinstance(f, (ast.FunctionDef, ast.AsyncFunctionDef))]:
+            scanned += 1
+            for lp in [l for l in ast.walk(fn) if isinstance(l, ast.For) and isinstance(l.iter, ast.Call) and isinstance(l.iter.func, ast.Name)
+                       and l.iter.func.id == "zip" and len(l.iter.args) == 2]:
+                verdict = any(isinstance(r, ast.Return) and isinstance(r.value, ast.Constant) and r.value.value is False for r in ast.walk(lp))
+                if not verdict:
+                    continue
+                hits += 1
+                ctx.touch(m, fn)
+                strict = any(k.arg == "strict" and isinstance(k.value, ast.Constant) and k.value.value is True for k in lp.iter.keywords)
+                a, b = norm(lp.iter.args[0]), norm(lp.iter.args[1])
+                lens = [c for c in ast.walk(fn) if isinstance(c, ast.Compare) and len(c.ops) == 1 and isinstance(c.ops[0], (ast.Eq, ast.NotEq))
+                        and all(isinstance(x, ast.Call) and call_name(x) == "len" for x in (c.left, c.comparators[0]))
+                        and {norm(c.left.args[0]), norm(c.comparators[0].args[0])} == {a, b}]
+                if strict or lens:
+                    ctx.ok("zip.truncation", m, lp.iter, what="lengths compared / strict zip")
+                else:
+                    ctx.fail("zip.truncation", m, lp.iter,
+                             f"{qualname(fn)} decides equality by walking `{short(lp.iter, 80)}`: zip stops at the shorter sequence, so when one is a proper "
+                             f"prefix of the other no element ever differs and the verdict is 'equal' (no length comparison of the two, no strict=True)",
+                             func=qualname(fn), construct=f"{qualname(fn)}: zip({a[:30]}, {b[:30]}) without length check")
+    ctx.ok_abstract("zip.truncation", f"{scanned} functions scanned, {hits} lock-step equality walks over zip")
